@@ -10,6 +10,7 @@ import (
 	"net/http"
 	"sync"
 	"sync/atomic"
+	"syscall"
 	"time"
 
 	sse "github.com/tmaxmax/go-sse"
@@ -24,6 +25,9 @@ import (
 // the handler.  See coq/theories/RunE2E.v for the formats.
 //
 // scenario : (n<kind> (step ...) n<OnSession returns its own topics>)   kind = (n<replayer kind: 0 finite/512 manual IDs, 1 valid manual, 2 finite/512 auto, 3 valid auto, 4 finite/6 manual, 5 finite/6 auto> (step ...))
+//   kind + 100*e: what a cut looks like to the client: 0 the harness's own errors, 1 an error matching context.DeadlineExceeded with
+//   Timeout() (http.Client.Timeout), 2 io.ErrUnexpectedEOF, 3 ECONNRESET in a *net.OpError, 4 context.Canceled itself, 5 net.ErrClosed,
+//   6 a wrapped context.DeadlineExceeded - all while the request's own context lives
 //   kind + 10*b: the client's Connection is given its buffer by Buffer(buf of capacity 200000, 0) [b=1], Buffer(nil, 200000) [b=2],
 //   Buffer(buf of capacity 4096, 200000) [b=3]; payload kinds >= 1000 (events of 66-68 KB, beyond the default limit) only then
 //   step = (n0 n<k> n<payload kind>)  publish k messages
@@ -36,6 +40,7 @@ import (
 //        | (n6)        cut the connection silently (client: timeout; server: nothing, writes swallowed) and wait for the resubscription
 //        | (n7)        writes on silently cut connections start to fail
 //        | (n9 n<ms>)  the peer stops reading (the server's next write waits), the handler is told to end, the peer reads again after ms milliseconds
+//        | (n10)       a publication the replayer refuses, on another topic
 //        | (n8 n<c>)   the peer's FIN: after c more raw bytes the response ends cleanly right after the next line feed
 // line written: input = (scenario (published ...) (attempt ...) flags), observed = n1
 //   published = (x<id> x<type> (x<data string> ...))            in publish order
@@ -79,6 +84,7 @@ type cutConn struct {
 	fin    *atomic.Int64 // >=0: after that many more bytes, pass bytes on up to and including the next LF, then end the stream like a FIN (io.EOF)
 	dead   atomic.Bool
 	finNow bool
+	char   int
 }
 
 func (c *cutConn) Read(p []byte) (int, error) {
@@ -106,7 +112,7 @@ func (c *cutConn) Read(p []byte) (int, error) {
 	if b == 0 {
 		c.budget.Store(-1)
 		c.Conn.Close()
-		return 0, errors.New("connection severed by the scenario")
+		return 0, cutErr(c.char, errors.New("connection severed by the scenario"))
 	}
 	if b > 0 && int64(len(p)) > b {
 		p = p[:b]
@@ -225,6 +231,7 @@ type e2eRun struct {
 	stallArm  atomic.Pointer[chan struct{}] // the next connection's peer stops reading after the response head
 	lis       *pipeListener
 	inner     http.RoundTripper
+	errChar   int
 }
 
 type cutBody struct {
@@ -236,6 +243,36 @@ type cutBody struct {
 
 var errBodyCut = errors.New("response body cut by the scenario")
 
+// timeoutLike matches context.DeadlineExceeded and says Timeout(), like the error net/http produces when
+// http.Client.Timeout strikes while a body is being read - with the request's own context still alive.
+type timeoutLike struct{}
+
+func (timeoutLike) Error() string   { return "scenario: Client.Timeout exceeded while reading body" }
+func (timeoutLike) Timeout() bool   { return true }
+func (timeoutLike) Temporary() bool { return true }
+func (timeoutLike) Is(target error) bool {
+	return target == context.DeadlineExceeded
+}
+
+// cutErr is the error a cut shows to the client, by the scenario's error character (hundreds digit of the kind).
+func cutErr(char int, dflt error) error {
+	switch char {
+	case 1:
+		return timeoutLike{}
+	case 2:
+		return io.ErrUnexpectedEOF
+	case 3:
+		return &net.OpError{Op: "read", Net: "tcp", Err: syscall.ECONNRESET}
+	case 4:
+		return context.Canceled // the sentinel itself, while the request's context lives
+	case 5:
+		return net.ErrClosed
+	case 6:
+		return fmt.Errorf("read body: %w", context.DeadlineExceeded)
+	}
+	return dflt
+}
+
 func (b *cutBody) Read(p []byte) (int, error) {
 	if b.err != nil {
 		return 0, b.err
@@ -244,7 +281,7 @@ func (b *cutBody) Read(p []byte) (int, error) {
 	if budget == 0 {
 		b.r.bodyCut.Store(-1)
 		b.rc.Close()
-		b.err = errBodyCut
+		b.err = cutErr(b.r.errChar, errBodyCut)
 		b.r.mu.Lock()
 		b.a.endErr = true
 		b.r.mu.Unlock()
@@ -349,7 +386,8 @@ func execE2E(in val.V) val.V {
 	// the tens digit of the kind: how the client's Connection is given its buffer (events up to 200 000 bytes must then
 	// fit, on every attempt): 0 not at all (64 KiB limit), 1 Buffer(buf with the capacity, 0), 2 Buffer(nil, max),
 	// 3 Buffer(small buf, max)
-	bufCfg := kind / 10
+	errChar := kind / 100 // what a cut looks like to the client (see cutErr)
+	bufCfg := kind / 10 % 10
 	kind %= 10
 	steps := in.At(1).Items()
 	// in.At(2): OnSession returns its own topics (a freshly generated scenario has it there; a replayed line has the
@@ -361,6 +399,7 @@ func execE2E(in val.V) val.V {
 	run.bodyCut.Store(-1)
 	run.rawCut.Store(-1)
 	run.finCut.Store(-1)
+	run.errChar = errChar
 
 	var replayer sse.Replayer
 	auto := kind == 2 || kind == 3 || kind == 5
@@ -416,7 +455,7 @@ func execE2E(in val.V) val.V {
 			case <-ctx.Done():
 				return nil, ctx.Err()
 			}
-			cc := &cutConn{Conn: c1, budget: &run.rawCut, fin: &run.finCut}
+			cc := &cutConn{Conn: c1, budget: &run.rawCut, fin: &run.finCut, char: run.errChar}
 			run.mu.Lock()
 			run.srvConns = append(run.srvConns, sc)
 			run.mu.Unlock()
@@ -628,6 +667,15 @@ func execE2E(in val.V) val.V {
 				sc.stall.Store(nil)
 			}
 			close(ch)
+		case 10:
+			// a publication the replayer refuses (a message with an ID where IDs are generated, one without where they are
+			// not), on a topic the client does not listen to: nothing is stored, nothing is owed to the client
+			m := &sse.Message{}
+			m.AppendData("refused")
+			if auto {
+				m.ID = sse.ID("taken")
+			}
+			_ = joe.Publish(m, []string{"elsewhere"})
 		case 7:
 			// the server's writes on silently cut connections start to fail
 			run.mu.Lock()
@@ -692,6 +740,9 @@ func genE2EScenario(r *rng.R, thorough bool) val.V {
 		bufCfg = 1 + r.Intn(3)
 	}
 	kind += 10 * bufCfg
+	if r.Intn(3) == 0 {
+		kind += 100 * (1 + r.Intn(6))
+	}
 	nsteps := 3 + r.Intn(5)
 	if thorough {
 		nsteps = 4 + r.Intn(12)
@@ -748,6 +799,9 @@ func genE2EScenario(r *rng.R, thorough bool) val.V {
 		if r.Intn(3) == 0 {
 			steps = append(steps, val.L(val.N(4)))
 		}
+		if r.Intn(10) == 0 {
+			steps = append(steps, val.L(val.N(10)))
+		}
 	}
 	return val.L(val.Int(kind), val.List(steps), val.Bool(r.Bool()))
 }
@@ -755,7 +809,7 @@ func genE2EScenario(r *rng.R, thorough bool) val.V {
 func genE2E(c *Ctx) {
 	n := 200
 	if c.Thorough {
-		n = 6000
+		n = 2500 // about 600 MB of traces; the driver reads at most 1.5 GB back
 	}
 	scen := make([]val.V, 0, n+16)
 	// directed: a cut inside the first event after a reconnect; a cut exactly between events; cut in the head
@@ -777,6 +831,16 @@ func genE2E(c *Ctx) {
 				val.L(val.N(1), val.N(30000)), val.L(val.N(0), val.N(2), val.N(1002)), val.L(val.N(4)),
 				val.L(val.N(3), val.N(1)), val.L(val.N(0), val.N(1), val.N(1003)), val.L(val.N(4)),
 				val.L(val.N(2), val.N(500)), val.L(val.N(0), val.N(1), val.N(1004)))))
+		}
+	}
+	// directed: refused publications between accepted ones, then cuts of every error character
+	for kind := 0; kind < 6; kind++ {
+		for _, char := range []int{0, 1 + kind} {
+			scen = append(scen, val.L(val.Int(kind+100*char), val.L(
+				val.L(val.N(0), val.N(2), val.N(1)), val.L(val.N(10)), val.L(val.N(0), val.N(1), val.N(2)), val.L(val.N(4)),
+				val.L(val.N(1), val.N(0)), val.L(val.N(0), val.N(3), val.N(3)), val.L(val.N(4)),
+				val.L(val.N(10)), val.L(val.N(2), val.N(150)), val.L(val.N(0), val.N(2), val.N(0)), val.L(val.N(4)),
+				val.L(val.N(1), val.N(20)), val.L(val.N(0), val.N(2), val.N(4)))))
 		}
 	}
 	// directed: a peer that stops reading while the handler is being ended (short and long stalls)
